@@ -842,6 +842,7 @@ func main() {
 		}
 	}
 	protocol.SetMaxPackageLength(10485760)
+	tlsCloseScenarios()
 	for _, lim := range []int{64, 4096} {
 		appLimitScenario(lim)
 	}
